@@ -90,7 +90,7 @@ def handleQuery (cmd : String) (rest : List String) : Option String :=
         | .ok eng =>
           let fuel := defaultFuel docs eng
           let raw := evalRaw now Generated.Query.cycleGuard fuel docs eng
-          let top := recoverOutcome Generated.Query.evaluateRecovers raw
+          let top := topOf raw
           let fmts := match top with
             | .ok v => ",".intercalate (["json", "pretty-json", "csv", "gedcom", "html"].map (fun f => (formatOutcome qFmtFlags f v).cls))
             | _ => "-"
